@@ -378,6 +378,18 @@ Proof.
     cbn [ty_of] in Hty. destruct (ty_of l) as [a|] eqn:Ha; [|discriminate]. destruct (ty_of r) as [b|] eqn:Hbt; [|discriminate].
     cbn [hazard] in Hh. apply orb_false_elim in Hh as [Hh He]. apply orb_false_elim in Hh as [Hhl Hhr].
     cbn [bound] in Hb. apply andb_prop in Hb as [Hbl Hbr].
+    destruct (binop_eqb o OpAnd || binop_eqb o OpOr) eqn:Hao.
+    { assert (Ho' : o = OpAnd \/ o = OpOr) by (destruct o; cbn in Hao; try discriminate; auto).
+      assert (Hab : negb (ty_eqb a TAttr) && negb (ty_eqb b TAttr) = true /\ t = TBool).
+      { destruct Ho' as [-> | ->]; cbn in Hty; destruct (negb (ty_eqb a TAttr) && negb (ty_eqb b TAttr)); try discriminate;
+          inversion Hty; auto. }
+      destruct Hab as [Hab ->]. apply andb_prop in Hab as [Na Nb].
+      destruct (IHl a c pos size eq_refl Hhl Hbl) as (vl & rl & Hdl & Hrl & Hvl).
+      destruct (IHr b c pos size eq_refl Hhr Hbr) as (vr & rr & Hdr & Hrr & Hvr).
+      assert (Tl : truthy vl = to_bool rl) by (apply (truthy_to_bool a); [exact Hvl|intros ->; discriminate Na]).
+      assert (Tr : truthy vr = to_bool rr) by (apply (truthy_to_bool b); [exact Hvr|intros ->; discriminate Nb]).
+      rewrite d_expr_binop, Hdl, Hdr. cbn [bind].
+      destruct Ho' as [-> | ->]; cbn [r_expr py_binop]; rewrite Hrl, Hrr, Tl, Tr; eexists _, _; repeat split; cbn; eauto. }
     destruct (stringy a && stringy b && (binop_eqb o OpEq || binop_eqb o OpNe)) eqn:Hs.
     { apply andb_prop in Hs as [Hs Ho]. apply andb_prop in Hs as [Sa Sb].
       assert (Ho' : o = OpEq \/ o = OpNe) by (destruct o; cbn in Ho; try discriminate; auto).
@@ -390,7 +402,7 @@ Proof.
     destruct (IHl a c pos size eq_refl Hhl Hbl) as (vl & rl & Hdl & Hrl & Hvl).
     destruct (IHr b c pos size eq_refl Hhr Hbr) as (vr & rr & Hdr & Hrr & Hvr).
     rewrite d_expr_binop, Hdl, Hdr. cbn [bind].
-    destruct o; destruct a, b; cbn in Hty, Hs; try discriminate; inversion Hty; subst; clear Hty;
+    destruct o; cbn in Hao; try discriminate Hao; destruct a, b; cbn in Hty, Hs; try discriminate; inversion Hty; subst; clear Hty;
       cbn [r_expr]; rewrite Hrl, Hrr; cbn in Hvl, Hvr; inv_ex; subst; cbn;
       eexists _, _; (split; [reflexivity|]); (split; [reflexivity|]); cbn;
       eexists; (split; [reflexivity|]); f_equal;
@@ -450,12 +462,17 @@ Lemma filter_pred_agrees m p size : pred_ok m p = true ->
   forall cs pos, (forall c, In c cs -> hazard m p c = false) ->
   exists l, filter_pred m p size pos cs = Ok l /\ r_filter m p size pos cs = Some l /\ incl l cs.
 Proof.
-  unfold pred_ok. destruct (ty_of p) as [tt|] eqn:Hty; [|discriminate]. destruct tt; try discriminate. intro Hb.
+  unfold pred_ok. destruct (ty_of p) as [tt|] eqn:Hty; [|discriminate].
+  intro Hb0. assert (Htt : (tt = TBool \/ tt = TNum) /\ bound m p = true) by (destruct tt; try discriminate Hb0; auto).
+  destruct Htt as [Htt Hb]. clear Hb0.
   induction cs as [|c cs IH]; intros pos Hh; cbn.
   - exists []. repeat split. apply incl_nil_l.
-  - destruct (expr_agrees m p TBool c pos size Hty (Hh c (or_introl eq_refl)) Hb) as (v & rv & Hd & Hr & b & -> & ->).
+  - destruct (expr_agrees m p tt c pos size Hty (Hh c (or_introl eq_refl)) Hb) as (v & rv & Hd & Hr & Hv).
     destruct (IH (pos + 1)%N (fun c' H => Hh c' (or_intror H))) as (l & Hl & Hrl & Hi).
-    rewrite Hd, Hr, Hl, Hrl. cbn. destruct b; eexists; repeat split.
+    rewrite Hd, Hr, Hl, Hrl. cbn [bind].
+    assert (Hk : keep_py v pos = keeps rv pos).
+    { destruct Htt as [-> | ->]; cbn in Hv; inv_ex; subst; reflexivity. }
+    rewrite Hk. destruct (keeps rv pos); eexists; repeat split.
     + apply incl_cons; [left; reflexivity|]. apply incl_tl. exact Hi.
     + apply incl_tl. exact Hi.
 Qed.
